@@ -3,6 +3,7 @@ package c08
 import (
 	"bytes"
 	"fmt"
+	"runtime/debug"
 	"strings"
 
 	"github.com/bronlabs/bron-crypto/pkg/base/serde"
@@ -79,6 +80,30 @@ func sigmaLevel[X sigma.Statement, W sigma.Witness, A sigma.Statement, S sigma.S
 			}
 		}
 	}
+	// a response that is ALSO accepted under another challenge is a second accepting transcript with the same first
+	// message and a different challenge: the extractor must then succeed on it as well
+	cross := 0
+	for i := range es {
+		for j := range es {
+			if i == j || !okZ[i] {
+				continue
+			}
+			x.Case(fmt.Sprintf("%s/cross/%s,%s", c.name, challengeNames[i], challengeNames[j]))
+			if p.Verify(x0, a, es[j], zs[i]) != nil {
+				continue
+			}
+			cross++
+			if c.extract == nil {
+				continue
+			}
+			w, err := c.extract(p, x0, a, []sigma.ChallengeBytes{es[i], es[j]}, []Z{zs[i], zs[i]})
+			if err != nil {
+				x.Failf("sigma/extract-cross", "%s: the response to challenge %s is also accepted under challenge %s, and Extract fails on these two accepting transcripts: %v", c.name, challengeNames[i], challengeNames[j], err)
+			} else if err := p.ValidateStatement(x0, w); err != nil {
+				x.Failf("sigma/extract-cross", "%s: the response to challenge %s is also accepted under challenge %s, and Extract returns an invalid witness: %v", c.name, challengeNames[i], challengeNames[j], err)
+			}
+		}
+	}
 	sims := 0
 	for i, e := range es {
 		x.Case(fmt.Sprintf("%s/simulate/%s", c.name, challengeNames[i]))
@@ -93,7 +118,7 @@ func sigmaLevel[X sigma.Statement, W sigma.Witness, A sigma.Statement, S sigma.S
 		}
 		sims++
 	}
-	x.Observe(c.name, " extracted ", extracted, " simulated ", sims, " extractor-exposed=", c.extract != nil)
+	x.Observe(c.name, " extracted ", extracted, " simulated ", sims, " cross-accepted ", cross, " extractor-exposed=", c.extract != nil)
 }
 
 // ---------------------------------------------------------------------------------------------
@@ -113,7 +138,7 @@ func zkOnce[X sigma.Statement, W sigma.Witness, A sigma.Statement, S sigma.State
 			if he, ok := r.(engine.HarnessError); ok {
 				panic(he)
 			}
-			accepted, stage = false, fmt.Sprintf("PANIC:%v", r)
+			accepted, stage = false, fmt.Sprintf("PANIC@%s|%v", libSite(string(debug.Stack())), r)
 		}
 	}()
 	x0, w0 := c.inst(0)
@@ -229,12 +254,12 @@ func zkRun[X sigma.Statement, W sigma.Witness, A sigma.Statement, S sigma.State,
 	stages := map[string]int{}
 	record := func(m int, desc, class string, acc bool, st string) {
 		switch {
-		case strings.HasPrefix(st, "CRASH"):
-			x.Failf(st[:strings.IndexByte(st, ':')], "%s: the process was TERMINATED by a panic in a library goroutine although only message %d was edited (%s): %s", c.name, m, desc, st)
-		case strings.HasPrefix(st, "PANIC/"):
-			x.Failf(st[:strings.IndexByte(st, ':')], "%s: interactive run panicked although only message %d was edited (%s): %s", c.name, m, desc, st)
-		case strings.HasPrefix(st, "PANIC"):
-			x.Failf("panic/zk/msg"+fmt.Sprint(m)+"/"+panicClass(class, desc), "%s: interactive run panicked although only message %d was edited (%s): %s", c.name, m, desc, st)
+		case strings.HasPrefix(st, "CRASH@"):
+			site, rest, _ := strings.Cut(strings.TrimPrefix(st, "CRASH@"), "|")
+			x.Failf("crash@"+site, "%s: the process was TERMINATED by an unrecoverable panic in a library goroutine (in %s) although only message %d of the interactive run was edited (%s): %s", c.name, site, m, desc, rest)
+		case strings.HasPrefix(st, "PANIC@"):
+			site, rest, _ := strings.Cut(strings.TrimPrefix(st, "PANIC@"), "|")
+			x.Failf("panic@"+site, "%s: interactive run panicked in %s although only message %d was edited (%s): %s", c.name, site, m, desc, rest)
 		case acc:
 			x.Failf("accepted/zk/msg"+fmt.Sprint(m), "%s: verifier ACCEPTED although message %d was edited: %s", c.name, m, desc)
 		default:
@@ -268,7 +293,6 @@ func zkRun[X sigma.Statement, W sigma.Witness, A sigma.Statement, S sigma.State,
 			}, true)
 			if strings.HasPrefix(st, "ISOLATE:") {
 				// decoded message carries a nil component: repeat this run in a child process
-				cls := strings.TrimPrefix(st, "ISOLATE:")
 				res := runChild(fmt.Sprintf("zk|%s|%d|%d", n.name, m, idx), nil)
 				switch res.outcome {
 				case "ACCEPT":
@@ -276,9 +300,9 @@ func zkRun[X sigma.Statement, W sigma.Witness, A sigma.Statement, S sigma.State,
 				case "REJECT":
 					acc, st = false, "isolated-"+res.detail
 				case "PANIC":
-					acc, st = false, "PANIC/"+cls+":"+res.detail
+					acc, st = false, "PANIC@"+res.site+"|"+res.detail
 				default:
-					acc, st = false, "CRASH/"+cls+":"+res.detail
+					acc, st = false, "CRASH@"+res.site+"|"+res.detail
 				}
 			}
 			record(m, ed.desc, ed.class, acc, st)
